@@ -56,7 +56,8 @@ impl PatchIndexEntry {
     /// Returns the entry and the number of bytes consumed.
     pub fn parse(data: &[u8], key_size: u8) -> Option<Self> {
         let size = entry_size(key_size);
-        if data.len() < size {
+        // Keys are held in 16-byte arrays: a larger key size is not an entry of this format
+        if key_size > 16 || data.len() < size {
             return None;
         }
 
